@@ -119,6 +119,15 @@ PROBES = ["", " padded ", "comma,inside", "quote'inside", "3", "3.0", "1e5", "Tr
 _PATHS = [0]
 
 
+def _sep(case, ctx):
+    """CSV takes the separator the user asks for (the same on the way out and in): comma by default, else ; tab |"""
+    if case["fmt"] != "csv":
+        return None
+    sep = [None, ";", "\t", "|", None, None][case["seed"] % 6]
+    ctx.count("csv_separator", repr(sep) if sep else "default")
+    return {"separator": sep} if sep else None
+
+
 def _export_import(fmt, iso, target, tag, sepkw=None):
     """Returns (outcome, isotherm-or-exception, stage)."""
     from pygaps.parsing.aif import isotherm_from_aif
@@ -273,6 +282,17 @@ def _run_point(case, ctx):
                 spec["extra"][col] = spec["extra"][col][::-1]
     if "Aux col" in spec["extra"]:
         spec["extra"]["Aux_col"] = spec["extra"].pop("Aux col")  # keys without blank (domain)
+    gaps = False
+    if fmt in ("csv", "excel") and case["seed"] % 4 == 1 and spec["extra"] and n >= 3:
+        # a numeric extra column with a gap (a calorimeter signal that was not recorded at every point): the column stays numeric,
+        # the gap stays a gap
+        col = sorted(spec["extra"])[0]
+        vals = list(spec["extra"][col])
+        for j in r.sample(range(n), r.randint(1, max(1, n // 4))):
+            vals[j] = float("nan")
+        spec["extra"][col] = vals
+        gaps = True
+        ctx.count("point_data", "%s/numeric-extra-column-with-gaps" % fmt)
     if fmt in ("csv", "excel") and case["seed"] % 3 == 0:
         # a text column as instruments write it (segment / step names)
         spec["extra"]["segment"] = [r.choice(["ads", "des", "hold", "dose_3", "equil"]) for _ in range(n)]
@@ -283,7 +303,7 @@ def _run_point(case, ctx):
         ctx.error("c07: construction failed", exc)
         return
     tag = "%s-%d" % (fmt, case["seed"])
-    st, back, stage = _export_import(fmt, iso, case["target"], tag)
+    st, back, stage = _export_import(fmt, iso, case["target"], tag, sepkw=_sep(case, ctx))
     label = "point"
     info = {"units": spec["units"], "n": n, "layout": layout, "extra": list(spec["extra"]), "meta": meta, "target": case["target"], "material": spec["material"]}
     ctx.case([fmt, label, case["seed"]])
@@ -320,7 +340,7 @@ def _run_point(case, ctx):
                 same = x == y
             else:
                 try:
-                    same = all(abs(float(u) - float(v)) <= 0.5e-8 + 1e-12 * abs(float(u)) for u, v in zip(x, y))
+                    same = all((abs(float(u) - float(v)) <= 0.5e-8 + 1e-12 * abs(float(u))) or (u != u and isinstance(v, float) and v != v) for u, v in zip(x, y))
                 except (TypeError, ValueError):
                     same = False
             if not same:
@@ -368,7 +388,7 @@ def _run_model(case, ctx):
         model = GM.make_model(name, P, rmse=round(r.uniform(0.001, 0.2), 6), temperature=T, **rng)
         iso = pygaps.ModelIsotherm(model=model, material=copy.deepcopy(mat), adsorbate=ads_name, temperature=Tst, **units, **copy.deepcopy(meta))
     info = {"model": name, "params": P, "units": dict(iso.units), "meta": meta, "target": case["target"], "ranges": {k: [float(x) for x in v] for k, v in rng.items()}}
-    st, back, stage = _export_import(fmt, iso, case["target"], "%s-m%d" % (fmt, case["seed"]))
+    st, back, stage = _export_import(fmt, iso, case["target"], "%s-m%d" % (fmt, case["seed"]), sepkw=_sep(case, ctx))
     label = "model"
     ctx.case([fmt, label, case["seed"]])
     ctx.count("models", fmt + "/" + name)
@@ -413,7 +433,7 @@ def _run_base(case, ctx):
     spec = gen.point_spec(r, n=2, units=gen.random_units(r), extras=False, meta=meta, material_props=mp)
     iso = gen.build_base(spec)
     info = {"units": spec["units"], "meta": meta, "material": spec["material"], "target": case["target"], "temperature": spec["temperature"]}
-    st, back, stage = _export_import(fmt, iso, case["target"], "%s-b%d" % (fmt, case["seed"]))
+    st, back, stage = _export_import(fmt, iso, case["target"], "%s-b%d" % (fmt, case["seed"]), sepkw=_sep(case, ctx))
     ctx.case([fmt, "base", case["seed"]])
     if st != "ok":
         _refusal(ctx, fmt, "base", back, stage, info)
